@@ -245,3 +245,24 @@ PROPS["C19"] = {
          "checks": {"quick": 1200, "thorough": 12000}, "shards": {"quick": 2, "thorough": 8}},
     ],
 }
+
+PROPS["C12"] = {
+    "level": "exploration",
+    "rule": ("Matrix: expected x actual over (3 HTTP versions, GET/POST, 3 protocols, 2 codecs, 6 compressions, plain/TLS/TLS+client cert) = 432 x 432 pairs, requests synthesised as a well-behaved client of the ACTUAL setup would send them (content types incl. bare and streaming forms, identity expressed or omitted, GET query parameters, TLS state with peer certificate) carrying the runner's x-expect-* headers of the EXPECTED setup, through referenceServerChecks with a recording printer; "
+             "oracle: the set of aspects named in feedback (each line prefixed with the test name) equals the set of aspects that differ, no line when all match. Extras: repeated request, request trailers, missing test name. "
+             "Timeout: every string of length <=3 over {0,1,9,+,-,space,H,M,S,m,u,n,x}, digit-count boundaries 7-12 (9..9, 10..0, zero-padded) x every unit, hostile constants and random strings up to 12 characters, for the 3 protocols, against the protocol grammars (Connect 1*10DIGIT ms; gRPC 1*8DIGIT unit) with big-integer duration and saturation; header must be gone from what the RPC handler sees, timeout_ms echoed by createRequestInfo. "
+             "BlackBox: the same through real HTTP/1.1 and h2c sockets against a server started via the exported entry point, feedback read from its stderr (synchronised by a marker request), echoed timeout read from the RPC response. Non-trivial: exactly one or two differing aspects; timeout strings of boundary length or with a sign/space/leading zero."),
+    "assumptions": ["actual requests are well-formed for their protocol (GET only with Connect; gRPC sends te: trailers)",
+                    "the timeout header is looked up by the EXPECTED protocol (as the runner configures it)"],
+    "units": [
+        {"name": "C12Matrix", "pkg": RS, "test": "TestVerifC12Matrix", "kind": "enum",
+         "shards": {"quick": 8, "thorough": 16}, "env_tier": {"quick": {"VERIF_C12_STRIDE": 1}, "thorough": {"VERIF_C12_STRIDE": 1}}},
+        {"name": "C12Extras", "pkg": RS, "test": "TestVerifC12Extras", "kind": "rapid",
+         "checks": {"quick": 5000, "thorough": 50000}, "shards": {"quick": 2, "thorough": 8}},
+        {"name": "C12TimeoutEnum", "pkg": RS, "test": "TestVerifC12TimeoutEnum", "kind": "enum"},
+        {"name": "C12TimeoutRandom", "pkg": RS, "test": "TestVerifC12TimeoutRandom", "kind": "rapid",
+         "checks": {"quick": 10000, "thorough": 200000}, "shards": {"quick": 2, "thorough": 8}},
+        {"name": "C12BlackBox", "pkg": RS, "test": "TestVerifC12BlackBox", "kind": "rapid",
+         "checks": {"quick": 1500, "thorough": 20000}, "shards": {"quick": 2, "thorough": 8}},
+    ],
+}
